@@ -996,6 +996,36 @@ func c02Dispatch(c *Ctx, p *Prog) {
 			c.Undecided(R, "Scan:line-loop", site, why)
 			return
 		}
+		// a helper of the package that the loop hands the line to: every path through it must reach a recogniser
+		helperOK := map[string]int{}
+		judgeHelper := func(h *ssa.Function) int {
+			if v, ok := helperOK[h.String()]; ok {
+				return v
+			}
+			helperOK[h.String()] = -1
+			houts, hwhy := e6Enumerate(mk, h.Blocks[0], nil, nil, 2048)
+			if hwhy != "" {
+				return -1
+			}
+			np := 0
+			for _, o := range houts {
+				rec := false
+				for _, a := range o.Actions {
+					if a.Kind == "call" && a.Callee != nil && a.Callee.Pkg() != nil && a.Callee.Pkg().Path() == bfPkg {
+						switch a.Callee.Name() {
+						case "parseBenchmarkLine", "parseUnitLine", "parseKeyValueLine":
+							rec = true
+						}
+					}
+				}
+				if !rec {
+					return -1
+				}
+				np++
+			}
+			helperOK[h.String()] = np
+			return np
+		}
 		for _, o := range outs {
 			recognised := false
 			readLine := false
@@ -1012,6 +1042,13 @@ func c02Dispatch(c *Ctx, p *Prog) {
 					switch a.Callee.Name() {
 					case "parseBenchmarkLine", "parseUnitLine", "parseKeyValueLine":
 						recognised = true
+					default:
+						if h := p.SSA.FuncValue(a.Callee); h != nil && h.Blocks != nil && h.Signature.Recv() != nil && !recognised {
+							if np := judgeHelper(h); np > 0 {
+								recognised = true
+								n += np - 1
+							}
+						}
 					}
 				}
 			}
